@@ -88,7 +88,7 @@ theorem keep_tree (env : Env) : ∀ (x : Tree) (A A' : List (Nat × Nat)) (tr : 
         intro kv hkv
         by_cases hin : kv.2 ∈ toRemove
         · rw [← htR, mem_dedupToRemove] at hin
-          exact .inr hin.2
+          exact .inr hin.2.2
         · exact .inl (hkept kv hkv hin)
       -- context below
       have hsub1 : ∀ kv ∈ A' ++ f', kv ∈ A ++ declsOfKids ks := by
